@@ -181,8 +181,53 @@ def check(stats, case_seed):
         stats.fail({"kind": "no-error-at-predicted-site", "faults": "+".join(kinds), "msg": m.message.split("'")[0][:30]}, case, "predicted %s; errors: %s" % ({"%s:%d" % k: v for k, v in fault_lines.items()}, [(g[0].message, g[0].source_file, str(g[0].location)) for g in r.errors][:4]))
 
 
+def alias_member_family(stats, rnd):
+    """Members looked up after a dot are looked up in the type of the field the head NAMES - also when
+    the head is an alias of a dotted path (let v = a.b; v.c) or the alias the compiler adds for a member
+    of an anonymous bits, when the type of the path's first element has a member of the same name, and
+    whichever of alias and user is written first."""
+    import types as _types
+
+    pool = ["c", "d", "len", "kind", "x"]
+    rnd.shuffle(pool)
+    m1, m2 = pool[0], pool[1]
+    users = [("w", "v.%s" % m1, ("Inner", m1)), ("x2", "v.%s" % m2, ("Inner", m2)), ("u2", "late.%s" % m1, ("Inner", m1)), ("direct", "a.b.%s" % m2, ("Inner", m2)), ("mid", "a.%s" % m1, ("Mid", m1)), ("z", "nn.%s" % m1, ("Nibble", m1)), ("vv", "v2.%s" % m1, ("Inner", m1))]
+    rnd.shuffle(users)
+    top = ["struct Top:", "  0 [+4]  Mid  a", "  4 [+1]  bits:", "    0 [+4]  Nibble  nn", "    4 [+4]  UInt  %s" % m1, "  let v = a.b", "  let v2 = v"]
+    first = users[: len(users) // 2]
+    for name, path, _ in first:
+        if name not in ("u2",):
+            top.append("  let %s = %s" % (name, path))
+    top.append("  let u2 = late.%s" % m1)  # the user comes before the alias it goes through
+    top.append("  let late = a.b")
+    for name, path, _ in users[len(users) // 2 :]:
+        if name not in ("u2",):
+            top.append("  let %s = %s" % (name, path))
+    text = "\n".join(['[$default byte_order: "LittleEndian"]', "bits Nibble:", "  0 [+2]  UInt  %s" % m1, "  2 [+2]  UInt  %s" % m2, "struct Inner:", "  0 [+1]  UInt  %s" % m1, "  1 [+1]  UInt  %s" % m2, "struct Mid:", "  0 [+2]  Inner  b", "  2 [+1]  UInt  %s" % m1, "  3 [+1]  UInt  %s" % m2] + top) + "\n"
+    files = {"m.emb": text}
+    case = {"files": files, "main": "m.emb"}
+    r = emb.compile_files(files, "m.emb", stop_before="annotate_types", gen_header=False, limit_s=60)
+    stats.case(files, True, ["alias-member-family", "predict-ok"], sample=None)
+    if r.exc:
+        stats.fail(dict(kind="exception", **r.exc_sig), case, r.exc_text)
+        return
+    if r.errors:
+        mm = r.errors[0][0]
+        stats.fail({"kind": "valid-references-rejected", "msg": mm.message.split("'")[0][:40]}, case, "%s at %s:%s" % (mm.message, mm.source_file, mm.location))
+        return
+    ref = _types.SimpleNamespace(kind="value")
+    for name, path, want in users:
+        f = find_field(r.ir, "m.emb", ["Top"], name)
+        got = observed_target(f, ref) if f is not None else None
+        if got != ("m.emb", want):
+            stats.fail({"kind": "wrong-binding", "ref": "value-through-alias", "segments": path.count(".") + 1}, dict(case, ref=path), "reference %s (let %s) resolved to %r, the scoping rules designate %r" % (path, name, got, ("m.emb", want)))
+
+
 def shard(idx, seed, n):
     stats = vlib.Stats()
+    fam = random.Random(seed * 131 + idx)
+    for _ in range(3):
+        alias_member_family(stats, fam)
     vlib.hyp_run(st.integers(0, 2**63), lambda s: check(stats, s), n, seed=seed * 1069 + idx)
     return stats
 
